@@ -8,7 +8,7 @@ func init() {
 		Pkgs:    []pkgSpec{{Dir: "services/keepstore", Race: true}},
 		Batches: 10, BatchesT: 16, Timeout: 15 * time.Minute, TimeoutT: 120 * time.Minute,
 		MinEvals: 2000, NeedInstr: true, QuickNoRace: true,
-		Rule: "(a) seq: random histories of PUT/TOUCH/GET/trash-list/DELETE/untrash/EmptyTrash/BlobTrash flips on 1-2 Directory volumes, initial copies aged now|TTL-10m|TTL+10m|10*TTL, planted trash with past/future/malformed deadlines; directories snapshotted around every request and judged against T1-T4; " +
+		Rule: "(a) seq: random histories of PUT/TOUCH/GET/trash-list/DELETE/untrash/EmptyTrash/BlobTrash flips on 1-2 Directory volumes (the second one read-only in a quarter of the cases: cluster-wide or, every other case, for this host only via AccessViaHosts), initial copies aged now|TTL-10m|TTL+10m|10*TTL, planted trash with past/future/malformed deadlines; directories snapshotted around every request and judged against T1-T4; " +
 			"(b) sched: PUT|TOUCH vs DELETE|trash-list on one block (initially old intact | absent | old corrupt; trash lifetime 1h | 0) with every filesystem step a gate, schedules enumerated completely when small and PRNG-sampled otherwise; oracle: acknowledged => retrievable, also after a further DELETE; " +
 			"(c) lin: 3-6 concurrent clients on 1-2 hashes with random delays at yield points, history checked with porcupine against a per-hash sequential model. " +
 			"distinct = distinct executed schedules (b), distinct (nvol, lifetime, #protected, effects seen) tuples (a), distinct (clients, hashes, ops, overlap class) (c)",
